@@ -241,6 +241,50 @@ def normalize_url(
     """
     original_url_arg = url
 
+    # Platform-specific magic
+    # NOTE: platform parsers must read a url that was already normalized, else
+    # variations normalization ignores (dot segments, an index page, an "amp-"
+    # prefix...) would decide how, or whether, the platform reads the url
+    if platform_aware:
+        options = dict(
+            sort_query=sort_query,
+            strip_authentication=strip_authentication,
+            strip_trailing_slash=strip_trailing_slash,
+            strip_index=strip_index,
+            strip_irrelevant_subdomains=strip_irrelevant_subdomains,
+            strip_fragment=strip_fragment,
+            normalize_amp=normalize_amp,
+            fix_common_mistakes=fix_common_mistakes,
+            query_item_filter=query_item_filter,
+        )
+
+        url = normalize_url(
+            url, strip_protocol=False, infer_redirection=infer_redirection, **options
+        )
+
+        had_protocol = PROTOCOL_RE.match(url)
+
+        if is_facebook_url(url):
+            p = parse_facebook_url(url)
+
+            if p is not None:
+                url = p.url
+
+        elif is_youtube_url(url):
+            url = normalize_youtube_url(url)
+
+        if not had_protocol:
+            url = PROTOCOL_RE.sub("", url)
+
+        return normalize_url(
+            url,
+            strip_protocol=strip_protocol,
+            infer_redirection=False,
+            unsplit=unsplit,
+            quoted=quoted,
+            **options
+        )
+
     if infer_redirection:
         url = resolve(url)
 
@@ -253,17 +297,6 @@ def normalize_url(
     # Ensuring scheme so parsing works correctly
     if not has_protocol:
         url = "http://" + url
-
-    # Platform-specific magic
-    if platform_aware:
-        if is_facebook_url(url):
-            p = parse_facebook_url(url)
-
-            if p is not None:
-                url = p.url
-
-        elif is_youtube_url(url):
-            url = normalize_youtube_url(url)
 
     # Parsing
     try:
